@@ -144,6 +144,16 @@ func cmdCheck(args []string) {
 	// core obligations must be claimed: a claim file that lost one of them no longer decides the property
 	if !*writeClaims {
 		var lost []string
+		// claims/<id>.core: names that must stay claimed (the obligations that carry the property's labelled clauses)
+		gen := map[string]bool{}
+		for _, r := range all {
+			gen[r.Obl.Name] = true
+		}
+		for name := range readLines(filepath.Join(*vdir, "claims", *prop+".core")) {
+			if _, isKnown := known[name]; gen[name] && !claims[name] && !isKnown {
+				lost = append(lost, name)
+			}
+		}
 		for _, pat := range cfg.Core {
 			re := regexp.MustCompile(pat)
 			matched := false
